@@ -110,11 +110,16 @@ func merge(dst, src *stats) {
 	dst.srvLingering += src.srvLingering
 	dst.silentDead += src.silentDead
 	dst.fenceBeforeSettings += src.fenceBeforeSettings
+	dst.ceHolds += src.ceHolds
+	dst.ceBehind += src.ceBehind
+	dst.ceFramesBehind += src.ceFramesBehind
+	dst.holdLeaks += src.holdLeaks
+	dst.lastCoversBehind += src.lastCoversBehind
 }
 
 func main() {
 	run := verdict.Start("C13", "exploration",
-		"(a) complete product {idle, open, half-closed-remote, closed-by-END_STREAM, closed-by-client-RST, closed-by-server-RST, reset-in-flight} x every frame variant (each type valid + each listed defect) x load {0, limit-1, limit other streams}; plus every variant as the first frame after the preface; (b) random sequences of <= 40 steps over the same alphabet biased towards legality; (c) legal-only sequences. Distinct by (kind, limit, state, variant, load) or (kind, seed); non-trivial when at least one frame was judged against the reference after the preface")
+		"(a) complete product {idle, open, half-closed-remote, closed-by-END_STREAM, closed-by-client-RST, closed-by-server-RST, reset-in-flight, conn-error-in-flight (reads held, writer blocked, a frame that must draw a connection error, then the variant and a new request before the GOAWAY can leave)} x every frame variant (each type valid + each listed defect) x load {0, limit-1, limit other streams}; plus every variant as the first frame after the preface; (b) random sequences of <= 40 steps over the same alphabet biased towards legality, one in six ending in such a conn-error-in-flight group; (c) legal-only sequences. Distinct by (kind, limit, state, variant, load) or (kind, seed); non-trivial when at least one frame was judged against the reference after the preface")
 	if run.ReplayFile != "" {
 		var w witness
 		if err := verdict.LoadReplay(run.ReplayFile, &w); err != nil {
@@ -291,6 +296,11 @@ func main() {
 	run.Add("probes_after_goaway", total.probes)
 	run.Add("probes_after_goaway_delivered", total.probesSent)
 	run.Add("reset_in_flight_constructions", total.holds)
+	run.Add("conn_error_in_flight_constructions", total.ceHolds)
+	run.Add("requests_delivered_behind_queued_error_goaway", total.ceBehind)
+	run.Add("frames_delivered_behind_queued_error_goaway", total.ceFramesBehind)
+	run.Add("held_constructions_where_writer_was_not_blocked", total.holdLeaks)
+	run.Add("error_goaway_last_id_reaches_a_request_sent_behind_the_error", total.lastCoversBehind)
 	run.Add("handler_starts_queued_behind_zombies", total.queuedStart)
 	run.Add("rst_superseded_by_goaway", total.superseded)
 	run.Add("serveconn_returned_after_close", total.srvReturned)
@@ -322,6 +332,7 @@ func main() {
 	run.Require("fences", 10000)
 	run.Require("probes_after_goaway_delivered", 50)
 	run.Require("reference_verdict_CE", 300)
+	run.Require("requests_delivered_behind_queued_error_goaway", 100)
 	run.Require("reference_verdict_E", 300)
 	run.Require("reference_verdict_IGN", 100)
 	run.Assume("x/net v0.19.0 Framer and HPACK decoder (module cache) are the independent codec the peer and the reference rest on")
